@@ -862,56 +862,80 @@ def check_create_bound(ctx) -> None:
         def __init__(self, rid, lb, ub):
             self.id, self.lower_bound, self.upper_bound = rid, lb, ub
 
-    created = []
+    class _M(_S):
+        """The libsbml model as far as parameters go."""
+
+        def __init__(self):
+            self.params = {}
+            self.clashes = []
+
+        def getParameter(self, pid):
+            return self.params.get(pid)
+
+    class _P(_S):
+        def __init__(self, pid, value):
+            self.pid, self.value = pid, value
 
     def create_parameter(it_, ev, c, a, k):
         kw = dict(k)
         names = ["model", "pid", "value", "constant", "sbo", "units", "flux_udef"]
         for n_, v in zip(names, a):
             kw[n_] = v
-        created.append(kw)
+        m_ = kw.get("model")
+        if isinstance(m_, _M):
+            if kw.get("pid") in m_.params:
+                m_.clashes.append(kw.get("pid"))
+            m_.params[kw.get("pid")] = _P(kw.get("pid"), kw.get("value"))
         return None
 
     tagged = lambda x: "R__" + "".join(ch if ch.isalnum() or ch == "_" else f"__{ord(ch)}__" for ch in x)  # noqa: E731
     problems = []
     shared = {-1000.0: "LOWER_BOUND_ID", 0.0: "ZERO_BOUND_ID", 1000.0: "UPPER_BOUND_ID", float("-inf"): "BOUND_MINUS_INF", float("inf"): "BOUND_PLUS_INF"}
-    seen_ids = {}
+    sid = re.compile(r"[A-Za-z_][A-Za-z0-9_]*\Z")
     n = 0
-    for rid in ("PFK", "EX_glc(e)", "R-1.2"):
-        for lb, ub in ((-1000.0, 1000.0), (0.0, float("inf")), (float("-inf"), 0.0), (-10.0, 7.5), (2000.0, 3000.0)):
-            for btype, val in (("lower_bound", lb), ("upper_bound", ub)):
-                for with_table in (True, False):
-                    created.clear()
+    # all the bounds of one model go into one document: values that differ only after the sixth significant digit, in
+    # the last bit, by sign; the same value on two reactions
+    bounds = ((-1000.0, 1000.0), (0.0, float("inf")), (float("-inf"), 0.0), (-10.0, 7.5), (2000.0, 3000.0), (123.456789, 123.4567891), (-7.5, 7.5), (0.1 + 0.2, 0.3), (1e-7, 1.0000001e-7), (-10.0, 2000.0))
+    helpers = [f.qualname for f in prog.all_funcs() if f.qualname.startswith(MOD + "._") and f.parent is None and f is not fn]  # what the function may be factored into
+    for with_table in (True, False):
+        doc = _M()
+        written = []
+        for rid in ("PFK", "EX_glc(e)", "R-1.2"):
+            for k_, (lb, ub) in enumerate(bounds):
+                r_id = f"{rid}{k_}" if rid == "PFK" else f"{rid}.{k_}"
+                for btype, val in (("lower_bound", lb), ("upper_bound", ub)):
                     table = {consts.get("F_REACTION_REV", "F_REACTION_REV"): _Tag(tagged)} if with_table else None
-                    it = Interp(prog, (_S, _Tag), [], {f"{MOD}._create_parameter": create_parameter})
+                    it = Interp(prog, (_S, _Tag), helpers, {f"{MOD}._create_parameter": create_parameter})
+                    before = len(doc.params)
                     try:
-                        out = it.call(fn, ["<model>", _R(rid, lb, ub), btype], {"f_replace": table, "units": None, "flux_udef": None})
+                        out = it.call(fn, [doc, _R(r_id, lb, ub), btype], {"f_replace": table, "units": None, "flux_udef": None})
                     except EvalRaise as exc:
-                        problems.append(f"_create_bound({rid}, {btype}={val}) raises {exc.exc_type}")
+                        problems.append(f"_create_bound({r_id}, {btype}={val}) raises {exc.exc_type}")
                         continue
                     except Unknown as exc:
                         raise AnalysisError(f"C10.bounds: _create_bound cannot be evaluated: {exc}")
                     n += 1
                     if val in shared:
                         want = consts.get(shared[val])
-                        if out != want or created:
-                            problems.append(f"the {btype} {val} of {rid} is written as {out!r}{' with a new parameter' if created else ''}, expected the shared parameter {want!r}")
+                        if out != want or len(doc.params) != before:
+                            problems.append(f"the {btype} {val} of {r_id} is written as {out!r}{' with a new parameter' if len(doc.params) != before else ''}, expected the shared parameter {want!r}")
                         continue
-                    if len(created) != 1 or created[0].get("pid") != out or created[0].get("value") != val:
-                        problems.append(f"the {btype} {val} of {rid}: returned {out!r}, parameters created {created}; expected one new parameter with this id and value")
-                        continue
-                    safe = tagged(rid) if with_table else rid
-                    if not isinstance(out, str) or safe not in out or (with_table and rid != safe and rid in out.replace(safe, "")):
-                        problems.append(f"the parameter for the {btype} of reaction {rid!r} is named {out!r}: its id is not built from the reaction id after the id replacement for reactions ({safe!r}) - an id with characters outside the SId alphabet is rejected by libsbml (return codes are not checked), the reaction then refers to no parameter and the bound is read back as the default")
-                        continue
-                    key = (with_table, out)
-                    if key in seen_ids and seen_ids[key] != (rid, btype):
-                        problems.append(f"the parameters of {seen_ids[key]} and {(rid, btype)} share the id {out!r}")
-                    seen_ids[key] = (rid, btype)
+                    written.append((r_id, btype, val, out))
+                    if not isinstance(out, str) or (with_table and not sid.match(out)):
+                        problems.append(f"the parameter for the {btype} of reaction {r_id!r} is named {out!r}, which is no SId although the id replacement for reactions is in force: libsbml rejects such an id (return codes are not checked), the reaction then refers to no parameter and the bound is read back as the default")
+        if doc.clashes:
+            problems.append(f"two parameters are created with the id {doc.clashes[0]!r}")
+        # what a reader finds: the parameter a reaction's bound refers to carries exactly that bound
+        for r_id, btype, val, out in written:
+            p_ = doc.params.get(out)
+            if p_ is None:
+                problems.append(f"the {btype} {val!r} of {r_id} refers to the parameter {out!r}, which was never created")
+            elif p_.value != val or type(p_.value) is not float:
+                problems.append(f"the {btype} {val!r} of {r_id} refers to the parameter {out!r}, which carries {p_.value!r} (the document is read back with that bound)")
     if problems:
         ctx.bad("C10.bounds", fn, fn.node, problems[0] + (f" (+{len(problems) - 1} more)" if len(problems) > 1 else ""))
     else:
-        ctx.ok("C10.bounds", fn, "bound parameters", f"{n} cases: shared parameters for the shared values, one parameter of its own otherwise - named after the replaced reaction id, distinct per reaction and side, carrying the value (evaluated)")
+        ctx.ok("C10.bounds", fn, "bound parameters", f"{n} bounds written into one document, with and without id replacement: shared parameters for the shared values; every other bound refers to a parameter that exists once, has a valid id and carries exactly that value (evaluated)")
 
 
 class _Tag:
